@@ -52,17 +52,33 @@ class StepTable:
         blocks = [b for b in tree if b.is_coroutine and any(True for _ in b.calls(lambda t: callee_is(t, FIND_RX)))]
         if len(blocks) != 1:
             raise Unverifiable(f"step block (coroutine calling Collection::find): {len(blocks)}")
-        self.F, self.body = F, blocks[0]
-        self.paths = D.Deep(F, self.body, opaque=FIND_RX, max_paths=4000).run()
+        self.F, self.block = F, blocks[0]
+        # the table is built for the whole step routine (the coroutine of the `async fn` the look-up block belongs to, the block
+        # inlined at its await): what the routine RETURNS — Ok(world) | Err(failure carrying the World and a StepError) | Err(skipped
+        # carrying the World) — is the same whether the inner block hands its outcome over as a Result of tuples or as a private enum
+        outer = self.block
+        while True:
+            pb = F.parent_body(outer)
+            if pb is None or pb.kind in ("Fn", "AssocFn"):
+                break
+            outer = pb
+        self.body = outer if outer.is_coroutine else self.block
+        # the threaded World: the routine's captured `Option<W>` parameter
+        self.world_opt_term = None
+        for i in self.body.upvar_names():
+            if "Option<W>" in self._upvar_ty(i):
+                self.world_opt_term = ("field", ("arg", 1), i)
+        self.paths = D.Deep(F, self.body, opaque=FIND_RX + r"|wait_for_span_close$|_span$|unbounded_send$", max_paths=8000).run()
         if not self.paths or any(p.cut for p in self.paths):
-            raise Unverifiable("step block: empty path table or a loop")
+            raise Unverifiable("step routine: empty path table or a loop")
         self.rows = [self.classify(p) for p in self.paths]
 
     def classify(self, p):
         find = [("call", e[1], e[2], e[4]) for e in p.effects if e[0] == "call" and re.search(FIND_RX, e[1])]
         ft = find[0] if find else None
-        r = {"p": p, "find": None, "found": None, "world_opt": None, "world_new": [i for i, e in enumerate(p.effects) if is_world_new(e)],
-             "step_call": [i for i, e in enumerate(p.effects) if is_indirect(e)], "panics": panics_of(p), "world_err": None, "find_term": ft,
+        r = {"p": p, "find": None, "found": None, "world_opt": None, "world_opt_term": self.world_opt_term, "world_new": [i for i, e in enumerate(p.effects) if is_world_new(e)],
+             "step_call": [i for i, e in enumerate(p.effects) if is_indirect(e) and (ft is None or not e[2] or D.mentions(e[2][0], lambda x: x == ft))],
+             "panics": panics_of(p), "world_err": None, "find_term": ft,
              "panic_src": panic_sources(self.F, self.body, p)}
         for a, out in p.conds:
             if a[0] != "discr":
@@ -75,18 +91,44 @@ class StepTable:
             elif x[0] == "field" and x[1] in (("arg", 1), ("deref", ("arg", 1))) and out in ("Some", "None") and r["world_opt"] is None and \
                     "Option<W>" in self._upvar_ty(x[2]):
                 r["world_opt"] = out
+                r["world_opt_term"] = x
             elif x[0] == "await" and x[1][0] == "call" and re.search(r"World::new$", x[1][1]):
                 r["world_err"] = (out == "Err")
                 r["world_term"] = x
         ret = p.ret
-        r["ret"] = "Ok" if D.is_variant(ret, "std::result::Result", "Ok") else "Err" if D.is_variant(ret, "std::result::Result", "Err") else "?"
+        # outcome of the routine: passed (Ok(world)), skipped (a failure value without StepError) or failed (one carrying a StepError)
         r["step_error"] = None
-        if r["ret"] == "Err":
-            for x in D.subterms(ret):
-                if D.is_variant(x, "event::StepError"):
-                    r["step_error"] = x
-                    break
+        for x in D.subterms(ret):
+            if D.is_variant(x, "event::StepError"):
+                r["step_error"] = x
+                break
+        r["world_out"] = None
+        if D.is_variant(ret, "std::result::Result", "Ok") and not D.mentions(ret, lambda x: isinstance(x, tuple) and x and x[0] == "variant" and x[1].endswith("ExecutionFailure")):
+            payload = ret[3][0]
+            if payload[0] == "tuple":      # (the inner block tabulated on its own: Ok((captures, loc, world)))
+                r["outcome"] = "passed" if r["step_call"] else "skipped"
+                r["world_out"] = payload[1][-1] if payload[1] else None
+            else:
+                r["outcome"] = "passed"
+                r["world_out"] = payload
+        else:
+            r["outcome"] = "failed" if r["step_error"] is not None else "skipped"
+            fv = [x for x in D.subterms(ret) if isinstance(x, tuple) and x and x[0] == "variant" and (x[1].endswith("ExecutionFailure") or x[1].endswith("StepOutcome"))]
+            src = fv[0][3] if fv else (ret[3][0][1] if D.is_variant(ret, "std::result::Result") and ret[3] and ret[3][0][0] == "tuple" else ())
+            wo = [x for x in src if x == r.get("world_opt_term") or D.is_variant(x, "std::option::Option") or
+                  (isinstance(x, tuple) and x and x[0] == "field" and x[1] in (("arg", 1), ("deref", ("arg", 1))) and "Option<W>" in self._upvar_ty(x[2]))]
+            # the World component: the Option among the failure's fields that is / wraps the attempt's World (or is None)
+            cands = [x for x in wo if not D.is_variant(x, "std::option::Option") or x[2] == "None" or self._is_world(x[3][0], r)]
+            r["world_out"] = cands[0] if cands else None
+        r["ret"] = "Err" if r["step_error"] is not None else "Ok"
         return r
+
+    def _is_world(self, t, r):
+        """Is term t the attempt's World on this row: the threaded one's payload or the one just created?"""
+        if r.get("world_opt_term") is not None and t == ("field", ("as", r["world_opt_term"], "Some"), 0):
+            return True
+        wt = r.get("world_term")
+        return wt is not None and t == ("field", ("as", wt, "Ok"), 0)
 
     def _upvar_ty(self, idx):
         # type of the captured variable idx of the block
